@@ -643,7 +643,10 @@ class C19Engine(Engine):
             sys.executable, "-m", "asyncio_taskpool.control", *args,
             stdin=asyncio.subprocess.PIPE, stdout=asyncio.subprocess.PIPE, stderr=asyncio.subprocess.PIPE, env=env)
         try:
-            data = b"num-running\nis-locked\n" + (b"exit\n" if how == "exit" else b"")
+            # what a user types: commands, now and then an empty or blank line (the client prompts again), upper case
+            variant = hash(json.dumps(case, sort_keys=True) + "v") % 3
+            data = [b"num-running\nis-locked\n", b"\nnum-running\n   \n\nis-locked\n", b"NUM-RUNNING\n\t\n  is-locked  \n"][variant] + (b"exit\n" if how == "exit" else b"")
+            labels.add("cli:input-variant-%d" % variant)
             out, err = await asyncio.wait_for(proc.communicate(data), 20)
         except asyncio.TimeoutError:
             proc.kill()
